@@ -34,6 +34,7 @@ type Stats struct {
 	TypeSkippedGen              int // functions whose strict typing clauses were skipped (free type parameters)
 	IfSameTarget                int
 	ReferrerMultiplicityDiffers int
+	SwitchCondAssignable        int
 	StaleLocals                 int
 	DuplicateEdges              int
 	InstrKinds                  map[string]int
@@ -881,7 +882,13 @@ func (c *checker) typing(bi int, instr ir.Instruction) {
 			if _, ok := cnd.(*ir.Const); !ok {
 				terr("condition %d is %T, not a constant", k, cnd)
 			} else if !ident(cnd.Type(), x.Tag.Type()) {
-				terr("condition %d has type %s, tag has %s", k, cnd.Type(), x.Tag.Type())
+				// as for comparisons: no document demands identical types; 'switch err { case
+				// syscall.EAGAIN: }' compares an interface tag with constants of a concrete type
+				if types.AssignableTo(cnd.Type(), x.Tag.Type()) || types.AssignableTo(x.Tag.Type(), cnd.Type()) {
+					c.st.SwitchCondAssignable++
+				} else {
+					terr("condition %d has type %s, tag has %s", k, cnd.Type(), x.Tag.Type())
+				}
 			}
 		}
 	case *ir.TypeSwitch:
